@@ -4,6 +4,7 @@ import (
 	"strconv"
 	"strings"
 
+	corev1 "k8s.io/api/core/v1"
 	metav1 "k8s.io/apimachinery/pkg/apis/meta/v1"
 	gatewayv1 "sigs.k8s.io/gateway-api/apis/v1"
 	gatewayv1beta1 "sigs.k8s.io/gateway-api/apis/v1beta1"
@@ -198,6 +199,8 @@ func (s *refsSUT) apply(f []string) string {
 		}
 		gw.Servers = append(gw.Servers, srv)
 		return "ok"
+	case "lsacc":
+		return "acc=" + wire.B(lsAccepted(f))
 	case "merge":
 		mg := s.merge(f)
 		if mg == nil {
@@ -206,6 +209,47 @@ func (s *refsSUT) apply(f []string) string {
 		return "refs=" + wire.EncSet(mg.VerifiedCertificateReferences.UnsortedList())
 	}
 	return "bad-op"
+}
+
+// lsAccepted runs the REAL ListenerSet attachment predicate gatewaycommon.NamespaceAcceptedByAllowListeners - the
+// handshake behind every `ListenerSet/` child config (gateway_collection.go emits a child only when it holds):
+// lsacc <listenerSetNamespace> <parentGatewayNamespace> <mode> <selector|nil> <namespaceLabels|nil>
+func lsAccepted(f []string) bool {
+	local, parentNs := wire.Dec(f[1]), wire.Dec(f[2])
+	parent := &gatewayv1.Gateway{ObjectMeta: metav1.ObjectMeta{Name: "parent", Namespace: parentNs}}
+	if f[3] != "nil" {
+		parent.Spec.AllowedListeners = &gatewayv1.AllowedListeners{}
+		if f[3] != "nons" {
+			ln := &gatewayv1.ListenerNamespaces{}
+			switch f[3] {
+			case "All", "Same", "None", "Selector":
+				from := gatewayv1.FromNamespaces(f[3])
+				ln.From = &from
+			case "Bogus":
+				from := gatewayv1.FromNamespaces("Bogus")
+				ln.From = &from
+			}
+			if f[4] != "nil" {
+				ln.Selector = &metav1.LabelSelector{MatchLabels: map[string]string{}}
+				for _, kv := range wire.DecList(f[4]) {
+					k, v, _ := strings.Cut(kv, "=")
+					ln.Selector.MatchLabels[k] = v
+				}
+			}
+			parent.Spec.AllowedListeners.Namespaces = ln
+		}
+	}
+	return gatewaycommon.NamespaceAcceptedByAllowListeners(local, parent, func(name string) *corev1.Namespace {
+		if f[5] == "nil" || name != local {
+			return nil
+		}
+		ns := &corev1.Namespace{ObjectMeta: metav1.ObjectMeta{Name: name, Labels: map[string]string{}}}
+		for _, kv := range wire.DecList(f[5]) {
+			k, v, _ := strings.Cut(kv, "=")
+			ns.Labels[k] = v
+		}
+		return ns
+	})
 }
 
 // ---------------------------------------------------------------- generator
@@ -253,6 +297,8 @@ func genRefs(seed uint64, n int, outp string) {
 				saAnn = psa
 			case 2:
 				saAnn = wire.Pick(r, sas)
+			case 3:
+				saAnn = wire.Pick(r, []string{psa + "x", "x" + psa, "sa", "SA1", psa + "," + "sa2"})
 			}
 			if r.Chance(1, 5) {
 				parentNs = wire.Pick(r, nss)
@@ -331,6 +377,14 @@ func genRefs(seed uint64, n int, outp string) {
 			}
 			out.Line("rgrant", wire.Enc(srcNs), from, wire.Enc(fromNs), to, wire.Enc(name))
 		}
+		// the ListenerSet attachment handshake (AllowedListeners) on its own
+		for i, k := 0, r.Intn(3); i < k; i++ {
+			local, parent := wire.Pick(r, nss), wire.Pick(r, nss)
+			mode := wire.Pick(r, []string{"nil", "nons", "All", "Same", "Same", "None", "Selector", "Selector", "Selector", "Unset", "Bogus"})
+			sel := wire.Pick(r, []string{"nil", "-", "team=a", "team=a", "team=a,env=prod", "kubernetes.io/metadata.name=" + local, "kubernetes.io/metadata.name=ns1"})
+			nsl := wire.Pick(r, []string{"nil", "-", "team=a", "team=a,env=prod", "team=b", "kubernetes.io/metadata.name=ns1", "team=a,kubernetes.io/metadata.name=" + local})
+			out.Line("lsacc", local, parent, mode, sel, nsl)
+		}
 		// the same gateways seen by differently verified proxies
 		out.Line("merge", "1", "cluster.local", wire.Enc(pns), wire.Enc(psa))
 		for i, k := 0, 1+r.Intn(3); i < k; i++ {
@@ -343,6 +397,13 @@ func genRefs(seed uint64, n int, outp string) {
 				}
 				if r.Chance(1, 2) {
 					msa = wire.Pick(r, sas)
+				}
+				// near-miss identities: empty, prefix, extension and case variants of the expected account / namespace
+				switch r.Intn(8) {
+				case 0:
+					msa = wire.Pick(r, []string{"", "sa", "sa1x", "SA1", "a1", "sa1 ", "1", "s"})
+				case 1:
+					mns = wire.Pick(r, []string{"", "ns", "ns1x", "NS1", "s1", "istio", "ns1 "})
 				}
 				out.Line("merge", "1", "cluster.local", wire.Enc(mns), wire.Enc(msa))
 			}
@@ -359,6 +420,39 @@ func genRefs(seed uint64, n int, outp string) {
 // by an explicit grant for exactly that name and namespace.
 
 func (s *refsSUT) oracleOp(f []string) string {
+	if f[0] == "lsacc" {
+		// a ListenerSet namespace is accepted only if the parent Gateway says so: All, Same (and it is the same
+		// namespace), or a selector that the namespace's labels (incl. the implicit name label) satisfy
+		if !lsAccepted(f) {
+			return ""
+		}
+		switch f[3] {
+		case "All":
+			return ""
+		case "Same":
+			if f[1] == f[2] {
+				return ""
+			}
+		case "Selector", "Unset":
+			if f[4] != "nil" && f[5] != "nil" {
+				labels := map[string]string{}
+				for _, kv := range wire.DecList(f[5]) {
+					k, v, _ := strings.Cut(kv, "=")
+					labels[k] = v
+				}
+				labels["kubernetes.io/metadata.name"] = wire.Dec(f[1])
+				ok := true
+				for _, kv := range wire.DecList(f[4]) {
+					k, v, _ := strings.Cut(kv, "=")
+					ok = ok && labels[k] == v
+				}
+				if ok {
+					return ""
+				}
+			}
+		}
+		return "listenerset-namespace-accepted-without-allowedlisteners"
+	}
 	if f[0] != "merge" {
 		if s.apply(f) == "bad-op" {
 			return "bad-op"
